@@ -324,6 +324,11 @@ class Compiler(object):
             self.pre_process_extensibility_implied_type(type_descriptor)
 
     def pre_process_extensibility_implied_type(self, type_descriptor):
+        # Actual parameters are part of the type once the
+        # parameterized type has been instantiated.
+        for parameter in self.get_actual_parameter_types(type_descriptor):
+            self.pre_process_extensibility_implied_type(parameter)
+
         if 'members' not in type_descriptor:
             return
 
@@ -395,6 +400,27 @@ class Compiler(object):
             self.pre_process_tags_type(type_descriptor['element'],
                                        module_tags,
                                        module_name)
+
+        # Actual parameters are part of the type once the
+        # parameterized type has been instantiated.
+        for parameter in self.get_actual_parameter_types(type_descriptor):
+            self.pre_process_tags_type(parameter,
+                                       module_tags,
+                                       module_name)
+
+    def get_actual_parameter_types(self, type_descriptor):
+        """Returns the actual parameters of given type that are types. They
+        are pre-processed together with the type using them, as the
+        pre-processing is done again, then on the instantiated type,
+        when the specification is compiled another time.
+
+        """
+
+        return [
+            parameter
+            for parameter in type_descriptor.get('actual-parameters', [])
+            if isinstance(parameter, dict) and 'type' in parameter
+        ]
 
     def pre_process_tags_type_members(self,
                                       type_descriptor,
@@ -793,6 +819,10 @@ class Compiler(object):
             type_descriptors += self.get_type_descriptors_type(
                 type_descriptor['element'],
                 type_names)
+
+        for parameter in self.get_actual_parameter_types(type_descriptor):
+            type_descriptors += self.get_type_descriptors_type(parameter,
+                                                               type_names)
 
         return type_descriptors
 
